@@ -1103,6 +1103,29 @@ fn main() {
             }
             println!("ok closest of");
         }
+        "matrix_predicates" => {
+            use geo::relate::IntersectionMatrix;
+            use std::str::FromStr;
+            let sym = ['F', '0', '1', '2'];
+            let any = |m: &IntersectionMatrix, masks: &[&str]| masks.iter().any(|k| m.matches(k).unwrap());
+            let mut n = 0u32;
+            for code in 0..(4u32.pow(9)) {
+                let s: String = (0..9).map(|k| sym[((code >> (2 * k)) & 3) as usize]).collect();
+                let m = IntersectionMatrix::from_str(&s).unwrap();
+                let ok = m.is_disjoint() == any(&m, &["FF*FF****"])
+                    && m.is_intersects() != any(&m, &["FF*FF****"])
+                    && m.is_within() == any(&m, &["T*F**F***"])
+                    && m.is_contains() == any(&m, &["T*****FF*"])
+                    && m.is_coveredby() == any(&m, &["T*F**F***", "*TF**F***", "**FT*F***", "**F*TF***"])
+                    && m.is_covers() == any(&m, &["T*****FF*", "*T****FF*", "***T**FF*", "****T*FF*"])
+                    && m.is_touches() == any(&m, &["FT*******", "F**T*****", "F***T****"]);
+                if !ok {
+                    fail(format!("a named predicate of the matrix {s} differs from its DE-9IM mask"));
+                }
+                n += 1;
+            }
+            println!("ok matrix predicates ({n} matrices)");
+        }
         _ => {
             eprintln!("unknown op {op}");
             std::process::exit(4);
